@@ -115,6 +115,8 @@ def getattr_(I, obj, name):
         raise Unsupported("attribute %s of builtin %s" % (name, obj.name))
     if isinstance(obj, I.B.NativeObj):
         return obj.getattr(I, name)
+    if isinstance(obj, TypeOf) and name in ("__name__", "__qualname__"):
+        return I.B.opaque_str(I, "type(x).__name__")
     raise Unsupported("attribute %s of %r" % (name, obj))
 
 
